@@ -10,6 +10,8 @@ half a pixel of the ideal segment), and the draw on the real page must equal "be
 the colour". After every operation the whole active page must equal the reference image and every
 other page must be untouched.
 """
+import random
+
 from hypothesis import strategies as st
 
 from vlib.core import Result, Unit
@@ -18,7 +20,7 @@ from vlib.gfxutil import MODE_BY_NAME, GfxSess
 
 ID = 'C31'
 LEVEL = 'exploration'
-RULE = ("Hypothesis-generated operation lists (1-6 macro operations: PSET/PRESET+POINT, LINE in "
+RULE = ("Seed-driven operation lists (1-6 macro operations: PSET/PRESET+POINT, LINE in "
         "absolute / STEP / from-last-point form over all slope classes and both directions, "
         "LINE ,B and ,BF incl. degenerate boxes, GET+PUT PSET in place, GET+PUT PSET elsewhere, "
         "GET+PUT XOR twice, GET+PUT AND/OR/PRESET, sprites in integer/single/double arrays with "
@@ -378,129 +380,156 @@ def check_case(case):
 
 # --------------------------------------------------------------------------------------------
 # generators
+#
+# Operation lists come from a deterministic builder driven by an integer seed that Hypothesis
+# draws (plus the number of macro operations, so failing lists shrink to their shortest failing
+# prefix). Nested Hypothesis draws were tried first and produced many near-duplicate cases.
 
 MODE_WEIGHTED = gfxutil.LOWRES * 3 + gfxutil.HIRES
 
 
-def _coord(n):
-    return st.one_of(st.sampled_from(sorted(set([0, 1, n // 2, n - 2, n - 1]))),
-                     st.integers(0, n - 1))
+class _R(object):
+    def __init__(self, seed):
+        self.r = random.Random(seed)
+
+    def pick(self, seq):
+        return seq[self.r.randrange(len(seq))]
+
+    def int(self, a, b):
+        return a if b < a else self.r.randint(a, b)
+
+    def one_in(self, n):
+        return self.r.randrange(n) == 0
+
+    def coin(self):
+        return self.r.random() < 0.5
 
 
-def _attr(N, allow_none=True, allow_high=False):
-    opts = [st.integers(0, N - 1), st.integers(1, N - 1)]
-    if allow_none:
-        opts.append(st.none())
-    if allow_high:
-        opts.append(st.sampled_from([N, N + 1, 17, 128, 255]))
-    return st.one_of(*opts)
+def _coord(r, n):
+    if r.one_in(3):
+        return r.pick([0, 1, n // 2, n - 2, n - 1])
+    return r.int(0, n - 1)
 
 
-@st.composite
-def _segment(draw, W, H):
+def _attr(r, N, allow_high=False):
+    k = r.int(0, 11)
+    if k < 8:
+        return r.int(0, N - 1) if k < 4 else r.int(1, N - 1)
+    if k < 10 or not allow_high:
+        return None if k < 10 else r.int(0, N - 1)
+    return r.pick([N, N + 1, 17, 128, 255])
+
+
+def _segment(r, W, H):
     """Endpoints of a segment by slope class."""
-    cls = draw(st.sampled_from(['h', 'v', 'diag', 'shallow', 'shallow', 'steep', 'steep',
-                                'len1', 'point', 'any']))
-    small = draw(st.booleans())
-    lim = 14 if small else max(W, H)
+    cls = r.pick(['h', 'v', 'diag', 'shallow', 'shallow', 'shallow', 'steep', 'steep', 'steep',
+                  'len1', 'point', 'any'])
+    lim = 14 if r.coin() else max(W, H)
     if cls == 'h':
-        dx, dy = draw(st.integers(1, min(lim, W - 1))), 0
+        dx, dy = r.int(1, min(lim, W - 1)), 0
     elif cls == 'v':
-        dx, dy = 0, draw(st.integers(1, min(lim, H - 1)))
+        dx, dy = 0, r.int(1, min(lim, H - 1))
     elif cls == 'diag':
-        dx = dy = draw(st.integers(1, min(lim, W - 1, H - 1)))
+        dx = dy = r.int(1, min(lim, W - 1, H - 1))
     elif cls == 'shallow':
-        dx = draw(st.integers(2, min(lim, W - 1)))
-        dy = draw(st.integers(1, min(dx - 1, H - 1)))
+        dx = r.int(2, min(lim, W - 1))
+        dy = r.int(1, min(dx - 1, H - 1))
+        if r.one_in(4) and dx % 2 == 0 and dx // 2 <= H - 1:
+            dy = dx // 2                # exact half-pixel ties
     elif cls == 'steep':
-        dy = draw(st.integers(2, min(lim, H - 1)))
-        dx = draw(st.integers(1, min(dy - 1, W - 1)))
+        dy = r.int(2, min(lim, H - 1))
+        dx = r.int(1, min(dy - 1, W - 1))
+        if r.one_in(4) and dy % 2 == 0 and dy // 2 <= W - 1:
+            dx = dy // 2
     elif cls == 'len1':
-        dx, dy = draw(st.sampled_from([(1, 0), (0, 1), (1, 1)]))
+        dx, dy = r.pick([(1, 0), (0, 1), (1, 1)])
     elif cls == 'point':
         dx = dy = 0
     else:
-        dx, dy = draw(st.integers(0, W - 1)), draw(st.integers(0, H - 1))
-    sx, sy = draw(st.sampled_from([(1, 1), (1, -1), (-1, 1), (-1, -1)]))
+        dx, dy = r.int(0, W - 1), r.int(0, H - 1)
+    sx, sy = r.pick([(1, 1), (1, -1), (-1, 1), (-1, -1)])
     dx, dy = dx * sx, dy * sy
-    x0 = draw(st.integers(max(0, -dx), min(W - 1, W - 1 - dx)))
-    y0 = draw(st.integers(max(0, -dy), min(H - 1, H - 1 - dy)))
-    if draw(st.integers(0, 5)) == 0:
-        # push against an edge
-        x0 = max(0, -dx) if draw(st.booleans()) else min(W - 1, W - 1 - dx)
+    x0 = r.int(max(0, -dx), min(W - 1, W - 1 - dx))
+    y0 = r.int(max(0, -dy), min(H - 1, H - 1 - dy))
+    if r.one_in(6):
+        x0 = max(0, -dx) if r.coin() else min(W - 1, W - 1 - dx)     # against an edge
+    if r.one_in(6):
+        y0 = max(0, -dy) if r.coin() else min(H - 1, H - 1 - dy)
     return x0, y0, x0 + dx, y0 + dy
 
 
-@st.composite
-def _rect(draw, W, H, wfactor=1, maxbytes=6000, bpp=4):
+def _rect(r, W, H, wfactor=1, maxbytes=6000, bpp=4):
     """Sprite rectangle (x0, y0, x1, y1), ordered corners."""
     wmax = W // wfactor
-    w = draw(st.one_of(st.integers(1, min(17, wmax)), st.integers(1, min(70, wmax)),
-                       st.sampled_from([wmax, wmax - 1, 7, 8, 9, 15, 16, 24, 31, 32, 33])))
+    w = r.pick([r.int(1, min(17, wmax)), r.int(1, min(17, wmax)), r.int(1, min(70, wmax)),
+                r.pick([wmax, wmax - 1, 7, 8, 9, 15, 16, 24, 31, 32, 33])])
     w = max(1, min(w, wmax))
-    h = draw(st.one_of(st.integers(1, 6), st.integers(1, min(40, H)), st.just(H)))
+    h = r.pick([r.int(1, 6), r.int(1, 6), r.int(1, min(40, H)), H])
     rowbytes = bpp * (2 * ((w * wfactor + 15) // 16))
     h = max(1, min(h, H, maxbytes // rowbytes))
-    x0 = draw(st.one_of(st.just(0), st.just(W - w * wfactor), st.integers(0, W - w * wfactor)))
-    y0 = draw(st.one_of(st.just(0), st.just(H - h), st.integers(0, H - h)))
+    x0 = r.pick([0, W - w * wfactor, r.int(0, W - w * wfactor), r.int(0, W - w * wfactor)])
+    y0 = r.pick([0, H - h, r.int(0, H - h), r.int(0, H - h)])
     return x0, y0, x0 + w - 1, y0 + h - 1
 
 
-@st.composite
-def _macro(draw, mode):
+MACROS = ['pset', 'pset', 'line', 'line', 'line', 'line', 'box', 'bf', 'getput-same',
+          'getput-other', 'getput-other', 'xor2', 'xor2', 'verb', 'point']
+
+
+def _macro(r, mode):
     W, H, N = mode.width, mode.height, mode.nattr
-    kind = draw(st.sampled_from(['pset', 'pset', 'line', 'line', 'line', 'box', 'bf',
-                                 'getput-same', 'getput-other', 'xor2', 'verb', 'point']))
+    kind = r.pick(MACROS)
     if kind == 'pset':
-        op = draw(st.sampled_from(['pset', 'pset', 'preset']))
-        return [{'op': op, 'x': draw(_coord(W)), 'y': draw(_coord(H)),
-                 'c': draw(_attr(N, allow_high=True))}]
+        return [{'op': r.pick(['pset', 'pset', 'preset']), 'x': _coord(r, W), 'y': _coord(r, H),
+                 'c': _attr(r, N, allow_high=True)}]
     if kind == 'point':
-        return [{'op': 'point', 'x': draw(_coord(W)), 'y': draw(_coord(H))}]
+        return [{'op': 'point', 'x': _coord(r, W), 'y': _coord(r, H)}]
     if kind in ('line', 'box', 'bf'):
         if kind == 'line':
-            x0, y0, x1, y1 = draw(_segment(W, H))
+            x0, y0, x1, y1 = _segment(r, W, H)
         else:
-            big = draw(st.integers(0, 9)) == 0
-            x0, x1 = draw(_coord(W)), draw(_coord(W))
-            y0, y1 = draw(_coord(H)), draw(_coord(H))
-            if not big and kind == 'bf':
+            x0, x1 = _coord(r, W), _coord(r, W)
+            y0, y1 = _coord(r, H), _coord(r, H)
+            if kind == 'bf' and not r.one_in(10):
                 # keep filled boxes small most of the time (set comparisons are per pixel)
-                x1 = max(0, min(W - 1, x0 + draw(st.integers(-40, 40))))
-                y1 = max(0, min(H - 1, y0 + draw(st.integers(-30, 30))))
-        c = draw(_attr(N, allow_high=(draw(st.integers(0, 9)) == 0)))
-        form = draw(st.sampled_from(['abs', 'abs', 'step', 'last']))
+                x1 = max(0, min(W - 1, x0 + r.int(-40, 40)))
+                y1 = max(0, min(H - 1, y0 + r.int(-30, 30)))
+        c = _attr(r, N, allow_high=r.one_in(10))
+        form = r.pick(['abs', 'abs', 'step', 'last'])
         if form == 'last' and c is None:
             form = 'abs'
         return [{'op': kind, 'x0': x0, 'y0': y0, 'x1': x1, 'y1': y1, 'c': c, 'form': form}]
     # sprite macros
-    a = draw(st.integers(0, 2))
-    x0, y0, x1, y1 = draw(_rect(W, H, mode.wfactor, bpp=bits_of(N)))
+    a = r.int(0, 2)
+    x0, y0, x1, y1 = _rect(r, W, H, mode.wfactor, bpp=bits_of(N))
     get = {'op': 'get', 'x0': x0, 'y0': y0, 'x1': x1, 'y1': y1, 'a': a}
-    fx, fy = draw(st.integers(0, 9999)), draw(st.integers(0, 9999))
+    fx, fy = r.int(0, 9999), r.int(0, 9999)
     if kind == 'getput-same':
         return [get, {'op': 'put', 'a': a, 'verb': 'PSET', 'same': [x0, y0], 'fx': 0, 'fy': 0}]
     if kind == 'getput-other':
         return [get, {'op': 'put', 'a': a, 'verb': 'PSET', 'same': None, 'fx': fx, 'fy': fy}]
     if kind == 'xor2':
-        verb = draw(st.sampled_from(['XOR', None]))
-        p = {'op': 'put', 'a': a, 'verb': verb, 'same': None, 'fx': fx, 'fy': fy}
+        p = {'op': 'put', 'a': a, 'verb': r.pick(['XOR', None]), 'same': None, 'fx': fx, 'fy': fy}
         return [get, p, dict(p)]
-    verb = draw(st.sampled_from(['AND', 'OR', 'PRESET']))
-    return [get, {'op': 'put', 'a': a, 'verb': verb, 'same': None, 'fx': fx, 'fy': fy}]
+    return [get, {'op': 'put', 'a': a, 'verb': r.pick(['AND', 'OR', 'PRESET']), 'same': None,
+                  'fx': fx, 'fy': fy}]
 
 
-@st.composite
-def strat_case(draw):
-    mname = draw(st.sampled_from(MODE_WEIGHTED))
+def build_case(mname, seed, nmacros):
     mode = MODE_BY_NAME[mname]
-    bg = draw(st.one_of(st.none(), st.integers(0, 1 << 20), st.integers(0, 1 << 20)))
-    dens = draw(st.sampled_from([256, 256, 64, 8]))
-    ap, vp = draw(st.sampled_from([(0, 0), (0, 0), (0, 0), (1, 0), (1, 1), (0, 1), (2, 1)]))
+    r = _R(seed)
+    bg = r.pick([None, r.int(0, 1 << 20), r.int(0, 1 << 20)])
+    dens = r.pick([256, 256, 64, 8])
+    ap, vp = r.pick([(0, 0), (0, 0), (0, 0), (1, 0), (1, 1), (0, 1), (2, 1)])
     ops = []
-    for _ in range(draw(st.integers(1, 5))):
-        ops.extend(draw(_macro(mode)))
+    for _ in range(nmacros):
+        ops.extend(_macro(r, mode))
     return {'mode': mname, 'ap': ap, 'vp': vp, 'bg': bg, 'dens': dens, 'ops': ops}
+
+
+def strat_case():
+    return st.builds(build_case, st.sampled_from(MODE_WEIGHTED), st.integers(0, 2 ** 31),
+                     st.integers(1, 6))
 
 
 def gen_directed(shard, nshards, tier, seed):
@@ -549,4 +578,25 @@ REGRESSIONS = [
         {'op': 'put', 'a': 0, 'verb': 'PSET', 'same': None, 'fx': 33, 'fy': 21}]},
 ]
 
-KILLS = []
+KILLS = [
+    "final code, VERIF_REPO=<scratch> ./check C31 (VERIF_GFX_SCALE=0.15): 'line_error = (dx+1)//2+1' -> exit 1, line.endpoints + line.off-ideal ; unpack row padding -> exit 1, put.pset/put.xor/put.and/put.or/put.preset/put.err",
+    "confirmed with VERIF_REPO=<scratch> ./check C31 (exit 1): graphics._draw_line 'line_error = dx' -> line.endpoints, line.on-page",
+    "./check: _draw_line 'range(x0, x1, sx)' (no +1) -> line.count, line.nothing",
+    "./check: _draw_line 'line_error = 0' -> line.off-ideal",
+    './check: PackedSpriteBuilder.unpack row_bytes without +7 (row padding) -> put.pset, put.xor (5 buckets)',
+    './check: bytematrix.pack_bytes shifts reversed (bit order) -> put.pset, put.xor, put.and ...',
+    './check: PlanedSpriteBuilder.unpack plane order reversed -> put.* (3 buckets)',
+    './check: PlanedSpriteBuilder.pack row_bytes (w+8)//8 -> put.* (2 buckets)',
+    './check: _draw_box_filled slice x0:x1 (no +1) -> bf.pixels, bf.on-page',
+    'in-process screen (same check_case/strategy, Hypothesis unit only, <=300 cases): put_ XOR->OR -> put.xor',
+    'screen: point_ graph_view[x, y] -> point.err/pset.point',
+    'screen: Tandy6SpriteBuilder.unpack width not doubled -> put.xor (tandy/6, case #220)',
+    'screen: get_ one extra column -> put.xor, get.err',
+    "screen: _draw_line 'line_error = (dx+1)//2+1' and 'if line_error <= 0' -> line.off-ideal",
+    'screen: _get_attr_index wraps instead of clamping -> pset.pixels, pset.point',
+    "screen: put_ PRESET mask '^ 1' -> put.preset ; AND->OR -> put.and",
+    'screen: line_ second STEP taken relative to the old last point -> bf.on-page / box.on-page / line.on-page',
+    'screen: PackedSpriteBuilder.unpack does not clip to width -> put.err, put.pset',
+    'screen: get_ drops the last packed byte -> put.xor',
+    'SURVIVED (equivalent): _draw_box left side drawn one pixel short - the corner is also set by the horizontal side',
+]
